@@ -724,7 +724,10 @@ def lockTrace (st : St) (op : Op Nat Nat) (line : String) : String :=
 
 def step (st : St) (line : String) : St × String :=
   match (stripVia line.trimAscii.toString).splitOn " " with
-  | "case" :: fl :: _ => ({ directed := fl == "di" || fl == "sdi", fl := fl }, "case")
+  | "case" :: fl :: _ =>
+    -- `w…` flavours: the same code instantiated with a key type whose hashes collide; the model has no hashes
+    let fl' := if fl.startsWith "w" then (fl.drop 1).toString else fl
+    ({ directed := fl' == "di" || fl' == "sdi", fl := fl' }, "case")
   | ["new", k, v] => match k.toNat?, v.toInt? with
     | some k, some v => ({ st with keys := st.keys ++ [k], nvals := st.nvals ++ [(k, v)] }, "ok")
     | _, _ => (st, "bad-op")
